@@ -34,7 +34,7 @@ REQUIRED = ["template_none", "template_blank", "template_sparse", "template_with
             "negative_bpm_or_stop", "source_with_charts", "delays_or_warps", "zero_length_stop", "chart_template_empty_timing_keys",
             "chart_template_spells_its_notes_NOTES2", "negative_row_followed_by_a_row_for_the_same_beat", "template_with_notes2_chart",
             "source_is_an_instance_of_a_subclass_of_SMSimfile", "negative_value_that_is_minus_zero_as_a_float",
-            "source_chart_with_extra_components"]
+            "source_chart_with_extra_components", "negative_delay_in_a_source_that_must_convert"]
 
 SSC_ONLY = ["VERSION", "ORIGIN", "LABELS", "MUSICLENGTH", "LASTSECONDHINT", "PREVIEWVID", "JACKET", "CDIMAGE", "DISCIMAGE", "PREVIEW",
             "COMBOS", "SPEEDS", "SCROLLS", "FAKES", "WARPS", "TIMESIGNATURES"]
@@ -81,7 +81,11 @@ def timing_ops(rng, negative):
            ["set", "BPMS", evs(rng.randint(2 if neg_b else 1, 4), 60, 300, neg_b)],
            ["set", "STOPS", evs(rng.randint(1, 3), 0.1, 2, neg_s) if (neg_s or rng.random() < 0.6) else ""]]
     # DELAYS and WARPS are optional, but never garbage left over from the random history
-    ops.append(["set", "DELAYS", evs(rng.randint(1, 2), 0.1, 2)] if rng.random() < 0.4 else ["del?", "DELAYS"])
+    if not negative and rng.random() < 0.12:
+        # a negative DELAY is not a reason to refuse (only BPMs and stops are): it converts like everything else
+        ops.append(["set", "DELAYS", f"8.000=-{rng.uniform(0.1, 2):.3f}"])
+    else:
+        ops.append(["set", "DELAYS", evs(rng.randint(1, 2), 0.1, 2)] if rng.random() < 0.4 else ["del?", "DELAYS"])
     ops.append(["set", "WARPS", evs(rng.randint(1, 2), 0.5, 4)] if rng.random() < 0.3 else ["del?", "WARPS"])
     return ops
 
@@ -224,6 +228,8 @@ def check(ctx, case):
         ctx.feat("source_with_charts")
     if sm.get("DELAYS") or sm.get("WARPS"):
         ctx.feat("delays_or_warps")
+    if "=-" in (sm.get("DELAYS") or "") and not case["negative"]:
+        ctx.feat("negative_delay_in_a_source_that_must_convert")
     if "=0.000" in (sm.get("STOPS") or "") and not case["negative"]:
         ctx.feat("zero_length_stop")
     if case["chart_template"] == "empty_timing_keys":
